@@ -566,6 +566,14 @@ func TestZZVerifC20Run(t *testing.T) {
 		}
 
 		cases++
+		if hangs >= 3 {
+			// Stuck goroutines keep spinning; what has been seen is enough
+			// for the orchestrator to re-run those cases alone.
+			w.put(zzC20Rec{"k": "skipped", "id": c.ID})
+
+			return
+		}
+
 		bl, err := zzC20Build(dir, c)
 		if err != nil {
 			t.Fatalf("building case %d: %v", c.ID, err)
